@@ -93,7 +93,7 @@ func c02Exec(input sx.S) (obs sx.S) {
 			if c == 'A' {
 				anyUsed = true
 			}
-			if c == 'F' || c == 'G' {
+			if c == 'F' || c == 'G' || c == 'M' {
 				reflUsed = true
 			}
 		}
@@ -309,7 +309,7 @@ func c02Valid(input sx.S) bool {
 		}
 		for _, p := range al[2:] {
 			pl := sx.List(p)
-			if c := pl[1].(string); c != "R" && c != "A" && c != "F" && c != "G" {
+			if c := pl[1].(string); c != "R" && c != "A" && c != "F" && c != "G" && c != "M" {
 				return false
 			}
 		}
@@ -388,6 +388,12 @@ func c02Gen(r *rand.Rand, tier string) []Case {
 				asg = append(asg, a)
 			}
 			c.Tags = append(c.Tags, "struct-field-reflection")
+		}
+		if disc == 0 {
+			// the values of every type alternate between the Resolver interface and reflection (bindings
+			// discovered on first use; without abstract types no registration is needed)
+			asg = append(asg, all("M", 0))
+			c.Tags = append(c.Tags, "strategies-mixed-within-a-type")
 		}
 		c.Input = append(sx.List(c.Input), asg)
 		c.Tags = append(c.Tags, "nontrivial")
